@@ -78,6 +78,8 @@ func main() {
 		cmdMemIOReplay(os.Args[2:])
 	case "zexdump":
 		cmdZexDump(os.Args[2:])
+	case "cpmdump":
+		cmdCpmDump(os.Args[2:])
 	case "play":
 		cmdPlay(os.Args[2:])
 	case "sweep16":
